@@ -508,7 +508,7 @@ def gen_cases(rng, tier):
     thorough = tier == "thorough"
     cases = []
     # (a) structured histories x every single fault placement
-    nhist = 2600 if thorough else 150
+    nhist = 2600 if thorough else 115
     for i in range(nhist):
         cfg = _rand_cfg(rng, kind=[KQ, KQ, KN, KST, KSG, KAS][i % 6] if i % 2 else None)
         ops, nconn = _rand_history(rng, rng.randint(1, 6))
@@ -522,7 +522,7 @@ def gen_cases(rng, tier):
                 for fl2 in _single_faults(cfg, ops, fl):
                     cases.append({"in": [cfg, ops, fl2], "kind": "double-fault"})
     # (b) random longer histories, random fault scripts (also codes on calls they do not apply to)
-    for _ in range(12000 if thorough else 450):
+    for _ in range(12000 if thorough else 350):
         cfg = _rand_cfg(rng)
         ops, nconn = _rand_history(rng, rng.randint(1, 9))
         if rng.random() < 0.6:
